@@ -24,8 +24,8 @@ RULE = ('Generated panels (2-6 geos quick / 2-7 thorough; 8-20 greedy-only) wher
 ASSUMPTIONS = ['series tolerance 1e-12 x number of geos (summation order); derived values 1e-7..1e-9 relative; '
                'test outcomes compared exactly unless within 1e-9 of flipping']
 EXHAUSTIVE = {'quick': False, 'thorough': False}
-MINIMA = {'quick': {'dst_hourly_panels': 20, 'searches_after_caller_edits': 80, 'referee_tests': 400, 'sig_level_below_half': 20, 'shared_data_searches': 40, 'designs_checked': 400, 'distinct_nontrivial': 50, 'truncated_window_cases': 30},
-          'thorough': {'dst_hourly_panels': 200, 'searches_after_caller_edits': 800, 'referee_tests': 6000, 'sig_level_below_half': 200, 'shared_data_searches': 400, 'designs_checked': 6000, 'distinct_nontrivial': 600, 'truncated_window_cases': 400}}
+MINIMA = {'quick': {'min_corr_just_above_a_design': 10, 'dst_hourly_panels': 20, 'searches_after_caller_edits': 80, 'referee_tests': 400, 'sig_level_below_half': 20, 'shared_data_searches': 40, 'designs_checked': 400, 'distinct_nontrivial': 50, 'truncated_window_cases': 30},
+          'thorough': {'min_corr_just_above_a_design': 100, 'dst_hourly_panels': 200, 'searches_after_caller_edits': 800, 'referee_tests': 6000, 'sig_level_below_half': 200, 'shared_data_searches': 400, 'designs_checked': 6000, 'distinct_nontrivial': 600, 'truncated_window_cases': 400}}
 N = {'quick': 480, 'thorough': 4000}
 N_LARGE = {'quick': 16, 'thorough': 120}
 CASE_TIMEOUT = {'quick': 300, 'thorough': 900}
@@ -75,8 +75,20 @@ def run_case(spec):
     # one-sided level below one half (legal): the A/A interval is stored as (higher, lower)
     kw['sig_level'] = r.choice([0.3, 0.45, 0.2])
     kw['power_level'] = 0.9
-  truth = sl.Truth(case)
   counters = collections.Counter()
+  if spec['idx'] % 12 == 1 and spec['kind'] != 'large':
+    # min_corr placed a hair above the correlation of a design that an unconstrained run returns: its correlation
+    # test must fail (and its first score entry be 0), however small the gap
+    kw0 = dict(kw)
+    kw0.pop('min_corr', None)
+    probe = sl.run_search(dict(case, params=kw0), 'greedy')
+    if probe['outcome'].ok and probe['designs']:
+      cs = [d['corr'] for d in probe['designs'] if d.get('corr') is not None and 0.8 <= d['corr'] < 0.9999]
+      if cs:
+        c0 = r.choice(cs)
+        kw['min_corr'] = min(0.99999, c0 + r.choice([4e-6, 1e-6, 1e-7, 2e-8]))
+        counters['min_corr_just_above_a_design'] += 1
+  truth = sl.Truth(case)
   counters['sig_level_below_half'] += kw.get('sig_level', 0.9) < 0.5
   counters['dst_hourly_panels'] += spec['kind'] != 'large' and spec['idx'] % 12 == 9
   violations = []
